@@ -18,6 +18,20 @@ from .httpsim import ServerConn, make_app_server
 _quiet_done = False
 
 
+class phase:
+    """with phase(ctx, name): ... -> wall seconds of the block recorded in evidence coverage.phases_s"""
+
+    def __init__(self, ctx, name):
+        self.ctx, self.name = ctx, name
+
+    def __enter__(self):
+        import time
+        self.t0 = time.time()
+
+    def __exit__(self, *a):
+        self.ctx._phase(self.name, self.t0)
+
+
 def quiet_logs():
     """The tornado loggers would print every provoked error; they are not observables here."""
     global _quiet_done
@@ -205,10 +219,13 @@ def ka_respond(h, row):
     h.finish()
 
 
-def ka_exchange(row, schedule="stepwise", streaming=False, cuts=None):
+def ka_exchange(row, schedule="stepwise", streaming=False, cuts=None, stall=False):
     """Run the scenario on the real server.  schedule: 'stepwise' (request 1, observe, request 2,
     observe) or 'pipelined' (everything in one piece, one observation).
+    stall: the client's receive window is closed while request 1 is handled (every socket write would
+    block), so the response is still pending when the handler returns; it is drained afterwards.
     Returns the list of trace events."""
+    import collections
     from tornado import web
     quiet_logs()
 
@@ -245,17 +262,27 @@ def ka_exchange(row, schedule="stepwise", streaming=False, cuts=None):
         _, srv = make_app_server(env, app=app, no_keep_alive=bool(row["nka"]))
         conn = ServerConn(env, srv)
         head, body = ka_request1(row)
+        if stall:
+            conn.stream.write_plan = collections.deque()
+
+        def drain():
+            if stall and conn.stream.write_plan is not None:
+                conn.stream.write_plan = None
+                conn.stream.pump()
+                env.settle()
         if schedule == "pipelined":
             data = head + body + REQ2
             for c in (cut_at(data, cuts) if cuts else [data]):
                 conn.send(c)
             env.settle()
+            drain()
             ev.append({"a": "respond1", "args": [], "obs": {}})
             ev.append({"a": "respond2", "args": [], "obs": {}})
             ev.append({"a": "observe2", "args": [], "obs": {"out": list(conn.received()), "eof": bool(conn.closed())}})
             return ev
         conn.send(head)
         env.settle()
+        drain()
         if body:
             conn.send(body)
             env.settle()
@@ -281,7 +308,7 @@ def cut_at(data, points):
 
 
 def ka_trace(tid, row, **kw):
-    return {"id": tid, "cfg": row, "ev": ka_exchange(row, **kw)}
+    return {"id": tid, "cfg": row, "kw": {k: v for k, v in kw.items() if k != "schedule"}, "ev": ka_exchange(row, **kw)}
 
 
 # ---------------------------------------------------------------------------------------------
@@ -321,8 +348,48 @@ def inj_call(h, api, x):
         raise ValueError("unknown api %r" % (api,))
 
 
+def inj_run_reason(api, x):
+    """Reason phrase supplied without RequestHandler.set_status: 'conn_reason' = a request-callback application
+    calling HTTPConnection.write_headers itself; 'wsgi_reason' = the status string of a WSGI application served
+    by WSGIContainer (an exception there is only visible as an ERROR record of tornado.application)."""
+    from tornado import httpserver, httputil, wsgi
+    from .httpsim import LogCapture
+    s = "".join(map(chr, x))
+    res = {"raised": False, "err": "none"}
+
+    def wsgi_app(environ, start_response):
+        start_response("200 " + s, [("Content-Type", "text/plain"), ("Content-Length", "4")])
+        return [b"body"]
+
+    def callback_app(request):
+        try:
+            request.connection.write_headers(httputil.ResponseStartLine("HTTP/1.1", 200, s),
+                                             httputil.HTTPHeaders({"Content-Length": "4"}), b"body")
+            request.connection.finish()
+        except Exception as e:
+            res["raised"], res["err"] = True, type(e).__name__
+            raise
+
+    env = Env()
+    try:
+        with LogCapture() as lc:
+            srv = httpserver.HTTPServer(wsgi.WSGIContainer(wsgi_app) if api == "wsgi_reason" else callback_app)
+            conn = ServerConn(env, srv)
+            conn.send(b"GET / HTTP/1.1\r\nHost: x\r\n\r\n")
+            env.settle()
+            out, eof = conn.received(), conn.closed()
+        if api == "wsgi_reason" and any(n == "tornado.application" and lv == "ERROR" for n, lv, _ in lc.names("ERROR")):
+            res["raised"], res["err"] = True, "logged"
+        return res["raised"], res["err"], out, eof
+    finally:
+        env.close()
+        globals()["_quiet_done"] = False      # LogCapture restored the handlers
+
+
 def inj_run(api, x, flush_first=False):
     """-> (raised, err, out, eof): serve one GET whose handler makes the call and finishes."""
+    if api in ("conn_reason", "wsgi_reason"):
+        return inj_run_reason(api, x)
     from tornado import web
     quiet_logs()
     res = {"raised": False, "err": "none"}
@@ -414,9 +481,14 @@ def gz_trace(tid, cfg, ops, write_plan=None):
 
     real_ops = [(a, [list(unrle(args[0]))]) if a in ("write", "finish") else (a, args) for a, args in ops]
     hdrs = [] if cfg["ae"] == "absent" else ["Accept-Encoding: " + cfg["ae"]]
-    c = {"method": "GET", "version": cfg["version"], "inm": "absent"}
+    method = cfg.get("method", "GET")
+    c = {"method": method, "version": cfg["version"], "inm": "absent"}
     ev, out, eof = run_program(c, real_ops, app_settings={"compress_response": True}, extra_headers=hdrs,
                                prelude=prelude, write_plan=write_plan)
+    gout = geof = None
+    if method == "HEAD":      # the same program answered to GET: what "the body a GET would carry" is
+        _, gout, geof = run_program(dict(c, method="GET"), real_ops, app_settings={"compress_response": True},
+                                    extra_headers=hdrs, prelude=prelude)
     # put the run-length arguments back (the trace carries what the spec action takes)
     k = 0
     for e in ev:
@@ -431,5 +503,45 @@ def gz_trace(tid, cfg, ops, write_plan=None):
             gz = {"used": True, "ok": ok, "enc": list(msgs[0][4]), "dec": list(dec)}
     except Exception:
         pass
-    ev.append({"a": "response", "args": [], "obs": {"out": list(out), "eof": bool(eof), "gz": gz}})
-    return {"id": tid, "cfg": cfg, "ev": ev}
+    obs = {"out": list(out), "eof": bool(eof), "gz": gz}
+    if gout is not None:
+        obs["gout"], obs["geof"] = list(gout), bool(geof)
+    ev.append({"a": "response", "args": [], "obs": obs})
+    return {"id": tid, "cfg": dict(cfg, method=method), "ev": ev}
+
+
+def _gz_job(args):
+    tid, cfg, ops, kw = args
+    return gz_trace(tid, cfg, ops, **kw)
+
+
+def head_vs_get(ctx, sig_fn, base_id=500000, extra_random=200):
+    """HEAD under compress_response: every write/flush/finish program up to 2 operations (lengths 0 / 1024) x
+    {compressible, not} x {Accept-Encoding absent, gzip} answered to HEAD and to GET; TLC (Trace_Gzip,
+    HeadMatchesGet) compares the two raw responses.  Used by C02 (Content-Length of a HEAD) and C29."""
+    import random
+    from . import framework
+    paths = ctx.gen_paths("httpw", "Gen_Gzip", "Gen_Gzip.cfg",
+                          overrides={"Methods": '{"HEAD"}', "Lens": "{0, 1024}", "MaxOps": 2, "L": 3,
+                                     "CTypes": '{"default", "image/png"}', "AEs": '{"absent", "gzip"}'})
+    jobs = []
+    for i, (extra, path) in enumerate(paths):
+        ops = [(s["act"], s["args"]) for s in path if s["act"] != "end"]
+        jobs.append((base_id + i + 1, extra["cfg"], ops, {}))
+    for i in range(extra_random):
+        rng = random.Random(ctx.seed * 7919 + i)
+        cfg = {"method": "HEAD", "version": rng.choice(["1.1", "1.0"]), "ctype": rng.choice(["default", "application/json", "image/png"]),
+               "ae": rng.choice(["gzip", "gzip", "absent", "deflate, gzip"]), "pre": rng.choice(["none", "none", "vary"])}
+        ops = []
+        for _ in range(rng.randint(1, 4)):
+            r = rng.random()
+            if r < 0.6:
+                ops.append(("write", [rle(bytes([rng.choice(b"ab")]) * rng.choice([1, 600, 1024, 3000]))]))
+            elif r < 0.8:
+                ops.append(("flush", []))
+            else:
+                ops.append(("finish", [rle(b"z" * rng.choice([0, 2000]))]))
+        jobs.append((base_id + len(paths) + i + 1, cfg, ops, {}))
+    traces = framework.pool_map(_gz_job, jobs)
+    ctx.validate("httpw", "Trace_Gzip", "Trace_Gzip.cfg", traces, label="head-vs-get", sig_fn=sig_fn)
+    return len(traces)
